@@ -8,7 +8,7 @@ CHECKS = {
     "C02": dict(
         cat="exploration", design="6/C02",
         technique="TLA+ definition of GF(2^8)/Cauchy matrix checked by TLC; exhaustive conformance run of every raid_gen variant against the TLC-verified tables",
-        text="TLC verifies witness tables (field, generator matrices) against the non-recursive TLA+ definition; a C harness linked with the rebuilt raid objects compares every exported table and runs every generator variant the CPU supports over the complete disk x byte x lane basis and dense data. Exhaustive over a finite basis, hence 'exploration' rather than proof.",
+        text="TLC verifies witness tables (field, generator matrices) against the non-recursive TLA+ definition; a C harness linked with the rebuilt raid objects compares every exported table and runs every generator variant the CPU supports over the complete disk x byte x lane basis and dense data, and calls every variant from four threads at once on private buffers. Exhaustive over a finite basis, hence 'exploration' rather than proof.",
         note="Trusted: TLC, the TLA+ definition of the field (polynomial 0x11d) and of the documented matrix construction, linearity of the implementations between basis vectors is probed by dense data only."),
     "C03": dict(
         cat="exploration", design="6/C03",
@@ -18,30 +18,30 @@ CHECKS = {
     "C18": dict(
         cat="model_checking", design="6/C18",
         technique="Filter.tla written from the manual; every TLC state (rule list) replayed as implementation tests of filter_* and end-to-end sync/list/fix -f runs",
-        text="TLC enumerates rule lists x paths from a specification written from the manual; each TLC state is one batch of implementation tests against the real filter functions (both fnmatch builds) plus end-to-end scenarios for sync/list and -f/-d/-m/-e selection.",
+        text="TLC enumerates rule lists x paths from a specification written from the manual; each TLC state is one batch of implementation tests against the real filter functions (both fnmatch builds) plus end-to-end scenarios for sync/list and -f/-d/-m/-e selection (re-pointed dangling links under -m, stripes that cannot be repaired: nothing outside the selection is renamed or written).",
         note="Bounded pattern pool and path depth; the manual's ambiguities are listed in the evidence assumptions and accepted both ways."),
 }
 
 CHECKS["C13"] = dict(
     cat="model_checking", design="4.3, 6/C13",
     technique="IoRing.tla (one action per critical section of io.c) checked by TLC incl. termination under fairness; H1 traces of real sync/scrub runs under seeded schedule perturbation validated against IoRingTrace.tla; byte-level determinism comparison across cache depths",
-    text="TLC explores all interleavings of caller, reader and writer threads over the slot ring for small sizes (ownership, once-in-order, determinism, absence of deadlock, termination under weak fairness, both signalling disciplines, mono mode); every real run's slot hand-over trace (hook H1, events taken under io_mutex) must be a behaviour of the specification, and parity/content/errors must be identical across cache depths 1..128 and yield seeds.",
+    text="TLC explores all interleavings of caller, reader and writer threads over the slot ring for small sizes (ownership, once-in-order, determinism, absence of deadlock, termination under weak fairness, both signalling disciplines, mono mode); every real run's slot hand-over trace (hook H1, events taken under io_mutex) must be a behaviour of the specification, and parity/content/errors must be identical across cache depths 1..128 and yield seeds, with each reader and each scanner thread made the slow one in turn (files moved across disks, scrub plans that select nothing, stripes skipped while needing a parity update included).",
     note="Small ring sizes in the model; wake-ups are not observable in traces (covered by liveness on the model and hang detection on real runs); writer-error accounting is excluded (defects F3/F4, see C08).")
 
 CHECKS["C16"] = dict(
     cat="translation_validation", design="6/C16",
     technique="vendored reference arrays and digest/CRC/parity vectors of the pinned version, doubly anchored by independent Python implementations of the TLA+-owned definitions (content encoding, GF(2^8) coefficients); current build must load, verify, rebuild and reproduce them",
-    text="Reference version vs current version on stored inputs: 23 golden arrays (both hash kinds, hash sizes 2..16, 1..6 parities, z-parity, split layouts, formats v2/v3, rehash in progress with distinct seeds, arrays left with an unfinished sync; configuration lines in several orders) are loaded, checked, damaged within the parity count in every subset, fixed and compared with vendored manifests; 4404 digest/CRC vectors and 128 parity vectors are recomputed by every implementation variant of the current build.",
+    text="Reference version vs current version on stored inputs: 27 golden arrays (both hash kinds, hash sizes 2..16, 1..6 parities, z-parity, split layouts incl. an empty file in front of a used one, content formats 1 (m/n records), 2 and 3, rehash in progress with distinct seeds, arrays left with an unfinished sync with the recorded outcome of the reference's fix per lost disk; configuration lines in several orders; read calls returning short counts) are loaded, checked, damaged within the parity count in every subset, fixed and compared with vendored manifests; 4404 digest/CRC vectors and 128 parity vectors are recomputed by every implementation variant of the current build.",
     note="The digests of Murmur3/SpookyHash are numeric functions: decided by recorded reference behaviour plus independent transliterations, not by TLC (DESIGN.md section 8).")
 CHECKS["C07"] = dict(
     cat="fault_enumeration", design="4.2, 6/C07",
     technique="ArraySteps.tla (sync refined into per-system-call steps with Crash anywhere) checked by TLC; every state-changing system call of real sync/fix runs is a kill point (before/after/short write) enumerated with an LD_PRELOAD shim; each execution validated by TLC against ArrayTrace.tla",
-    text="TLC checks on the step model that every crash state is safe (data untouched, every content copy whole, synced stripes valid for every copy, resume converges, old files recoverable when only additions are pending); on the binary every state-changing call of sync and fix is a kill point, SIGINT at stripes, followed by resume, check and a loss/fix round, all validated as traces.",
+    text="TLC checks on the step model that every crash state is safe (data untouched, every content copy whole, synced stripes valid for every copy, resume converges, old files recoverable when only additions are pending); on the binary every state-changing call of sync and fix is a kill point, SIGINT at stripes (also followed by copies of the partly synced files), followed by resume, check and a loss/fix round, all validated as traces.",
     note="Kill model: SIGKILL of the process, no power loss. The autosave defect (F5) is reported as a known finding by its signature.")
 CHECKS["C08"] = dict(
     cat="fault_enumeration", design="4.2, 6/C08",
     technique="ArraySteps.tla with failing parity writes (writer error counters as in io.c) checked by TLC; EIO/ENOSPC injected by the shim at every data read, parity read and parity write of real sync/scrub runs over io-cache depths; C08 evaluated by TLC on the projected post-state",
-    text="Every read/write call on data and parity files of real sync and scrub runs is a fault point; the post-state must show a failing status and the stripe unsynced or bad, every OTHER stripe must end as in the faultless run of the specification (SyncResult / ScrubResult), one failing call is one error in the summary, and the follow-up fix -e / sync / check are validated against the specification; sync -h (errors in the pre-hash phase) and one-stripe arrays (every processed stripe fails) included. Reader-side faults hold; writer-side faults reproduce the two announced defects (F3, F4), reported as known findings by signature.",
+    text="Every read/write call on data and parity files of real sync and scrub runs (arrays with pending changes and a hash migration in progress included) is a fault point; the post-state must show a failing status and the stripe unsynced or bad, every OTHER stripe must end as in the faultless run of the specification (SyncResult / ScrubResult), one failing call is one error in the summary, no block ends recorded as synced with a hash that is not the hash of its data, and the follow-up fix -e / sync / check are validated against the specification; sync -h (errors in the pre-hash phase) and one-stripe arrays (every processed stripe fails) included. Reader-side faults hold; writer-side faults reproduce the two announced defects (F3, F4), reported as known findings by signature.",
     note="One injected fault per run; faults injected at the libc call.")
 
 CHECKS["C09"] = dict(
@@ -52,12 +52,12 @@ CHECKS["C09"] = dict(
 CHECKS["C10"] = dict(
     cat="translation_validation", design="6/C10",
     technique="ContentFormat.tla as normative encoder: TLC-generated states encoded by TLC are loaded/rewritten/listed by the tool (spec->code); every content file written by the tool in seeded histories is decoded independently and re-encoded by the transliteration of the spec that is checked against TLC each run (code->spec)",
-    text="Two encoders of the same format (the TLA+ one and the tool's) are compared byte for byte in both directions over TLC-generated states (every record kind, run shapes, boundary values) and over the states the tool reaches in random histories; test-rewrite must reproduce files; every content copy must load to the same state; after a successful sync the saved state names exactly the files, links and empty directories on the disks (also for a disk holding nothing but empty directories or links).",
+    text="Two encoders of the same format (the TLA+ one and the tool's) are compared byte for byte in both directions over TLC-generated states (every record kind, run shapes, boundary values) and over the states the tool reaches in random histories; test-rewrite must reproduce files; every content copy must load to the same state (list, status -G, the layout rebuilt by -C); check and fix under --force-nocopy load the saved state (directed history on provisional hashes, validated against ArrayTrace.tla); after a successful sync the saved state names exactly the files, links and empty directories on the disks (also for a disk holding nothing but empty directories or links).",
     note="Fields refreshed on rewrite (free/total block counts, parity paths in Q records) are compared modulo exactly those; hash sizes other than 2/4/8/16 exist only in the model.")
 CHECKS["C14"] = dict(
     cat="model_checking", design="6/C14",
     technique="guards of Sync in Array.tla (empty/rewritten disk, zero-size file, short parity) validated by TLC on traces of real refused and overridden syncs; configuration guards and the lock as Refused steps of ArrayTrace.tla with digests before/after; second command started while the first is SIGSTOPped by the shim",
-    text="Each history applies every trigger on some disk/level with or without other pending changes; TLC checks that the specification's Sync refuses exactly when the binary does, that a refusal changes neither content nor parity (missing = empty parity file), and that the override lets the same sync proceed; the lock is exercised by stopping a running command at a random system call and starting every other command, and by a second flow in which a command that has ended (stopped just before it would unlink the lock file, if it did) overlaps a running lock holder. What the property demands (r.must of SyncResult) is evaluated separately from what the code does, so that an interlock the code does not apply is a violation: arrays with format-3 content exhibit finding F12 (lost parity not refused), reported by signature.",
+    text="Each history applies every trigger on some disk/level with or without other pending changes, alone and with the overrides of the OTHER interlocks; TLC checks that the specification's Sync refuses exactly when the binary does, that a refusal changes neither content nor parity (missing = empty parity file), and that the override lets the same sync proceed; the lock is exercised by stopping a running command at a random system call (also a sync started while the first content copy is lost) and starting every other command, and by a second flow in which a command that has ended (stopped just before it would unlink the lock file, if it did) overlaps a running lock holder. What the property demands (r.must of SyncResult) is evaluated separately from what the code does, so that an interlock the code does not apply is a violation: arrays with format-3 content exhibit finding F12 (lost parity not refused), reported by signature.",
     note="Abstractions of Array.tla; the lock is observed at process level (flock), start offsets sampled.")
 
 CHECKS["C19"] = dict(
@@ -79,7 +79,7 @@ CHECKS["C15"] = dict(
 CHECKS["C17"] = dict(
     cat="model_checking", design="6/C17",
     technique="SplitMap.tla (Lookup, Chsize transcribed from parity.c) checked by TLC over all grow/shrink/lose/fix sequences; twin arrays (split vs single file) compared byte for byte; every real resize validated by TLC against Chsize",
-    text="TLC explores all sequences of growth, shrinkage, loss and fix over 1..4 splits with the bijection / no-straddle / only-last-grows invariants; real split arrays (1..8 files per level) are compared with single-file twins after every step and each resize is a step of the specification.",
+    text="TLC explores all sequences of growth, shrinkage, loss and fix over 1..4 splits with the bijection / no-straddle / only-last-grows invariants; real split arrays (1..8 files per level) are compared with single-file twins after every step and each resize is a step of the specification (also: several unused trailing files dropped at once, a lost fixed file whose disk has less room than its recorded size - fix must stop).",
     note="Constant per-split limits (a limit is the disk capacity); with varying limits TLC and the binary exhibit F8; F9 recorded.")
 CHECKS["C20"] = dict(
     cat="model_checking", design="6/C20",
